@@ -17,6 +17,18 @@ CRAFTED = [
     ("vz.point x:int y:int = vz.Point;\nvz.line a:vz.point b:vz.point = vz.Line;\nvy.holder n:int = vy.Holder;\n---functions---\n@read vy.get id:int = vy.Holder;\n@read vz.getLine id:int = vz.Line;\n", "vz."),
     ("vz.point x:int y:int = vz.Point;\nvy.holder pts:(vector vz.point) = vy.Holder;\n", "vy."),
     ("vz.point x:int y:int = vz.Point;\nvy.holder pts:(vector vz.point) = vy.Holder;\n", "vz.point"),
+    # user templates that share the short name of a built-in container
+    ("geo.vector {t:Type} x:t y:t = geo.Vector t;\ngeo.tuple {t:Type} {n:#} first:t rest:n*[t] = geo.Tuple t n;\n"
+     "geo.segment from:(geo.vector int) to:(geo.vector int) tags:(vector int) tri:(geo.tuple int 3) = geo.Segment;\n"
+     "---functions---\n@read geo.getSegment id:int = geo.Vector long;\n", "geo."),
+    ("geo.vector {t:Type} x:t y:t = geo.Vector t;\nvy.dictionary {t:Type} k:string v:t = vy.Dictionary t;\nvy.maybe {t:Type} has:int v:t = vy.Maybe t;\n"
+     "vy.holder a:(geo.Vector int) d:(vy.dictionary int) m:(vy.maybe int) e:(Maybe int) = vy.Holder;\n", "*"),
+    # comments and line breaks inside combinators (the migrator carries them over)
+    ("sh.shapeCircle\n    r:int // radius\n    = sh.Shape;\nsh.shapeRect\n    w:int // width\n    h:int // height\n    = sh.Shape;\n"
+     "sh.box // a box\n    s:sh.Shape // the shape\n    n:int // count\n    = sh.Box;\n"
+     "---functions---\n@read sh.get // fn\n    id:int // the id\n    = sh.Box;\n", "sh."),
+    ("// leading comment\nsh.a x:int = sh.U; // trailing a\nsh.b y:string // why\n = sh.U; // trailing b\nsh.e1 = sh.E; // first\nsh.e2 = sh.E; // second\n"
+     "sh.w\n  f:# // mask\n  a:f.0?int // opt\n  = sh.W;\n", "*"),
 ]
 
 
